@@ -6,7 +6,9 @@
                       with the same byte scanner, a CStrLit is ONE string token,
                       a CName is a dotted identifier, a CNum a (signed) numeric
                       literal, a CFile only occurs inside a line comment.
-      Both drop white space and // comments (and refuse a line break before ++).  Tokens never span chunk
+      Both drop white space and // comments; a token may carry a 'line break before' flag ([TNL t]); the
+      lexers set it where a production of the subset is restricted by it (a postfix ++ after a line terminator,
+      also one that ends a comment), and the recogniser refuses a flagged token.  Tokens never span chunk
       boundaries except a string (the path of an ES6 import) and a comment (the
       header line): those are lexer modes carried from chunk to chunk.
 
@@ -81,7 +83,8 @@ Inductive jstoken :=
 | TKw (k : kw) (s : bstr)
 | TNum (s : bstr)
 | TStr
-| TP (p : punct).
+| TP (p : punct)
+| TNL (t : jstoken).          (* the token t with its 'line break before' flag set *)
 
 Definition kw_table : list (bstr * kw) := Eval vm_compute in
   [ (b "if", KwIf); (b "else", KwElse); (b "for", KwFor); (b "switch", KwSwitch); (b "case", KwCase);
@@ -183,14 +186,21 @@ Definition ls_at (c : N) (r : bstr) : bool :=
   match r with c1 :: c2 :: _ => (c =? 226) && (c1 =? 128) && ((c2 =? 168) || (c2 =? 169)) | _ => false end.
 
 (* a line terminator may not stand between an operand and a postfix ++ (a restricted production of ECMAScript:
-   the ++ would start a new statement).  Tokens do not record line breaks, so the lexer refuses the text: after a
-   line terminator, the next token must not be ++ *)
+   the ++ would start a new statement).  The lexer does not refuse such a text: the ++ token gets the flag
+   'line break before' ([TNL (TP PPlusPlus)]: decided at the line terminator, by looking over the white space that
+   follows it) and it is the recogniser that has no transition on a flagged token.  No other production of the
+   subset depends on a line break, so no other token is ever flagged. *)
 Fixpoint skip_spaces (s : bstr) : bstr :=
   match s with
   | c :: r => if is_space c then skip_spaces r else s
   | [] => []
   end.
 Definition incr_next (s : bstr) : bool := is_prefix [43; 43] (skip_spaces s).
+(* the bytes up to and including that ++ *)
+Definition incr_skip (s : bstr) : nat := (span is_space s + 2)%nat.
+Definition tok_incr_nl : jstoken := TNL (TP PPlusPlus).
+Definition cons_tok (t : jstoken) (r : option (list jstoken * lexmode)) : option (list jstoken * lexmode) :=
+  option_map (fun '(ts, m') => (t :: ts, m')) r.
 
 (* [skip]: bytes of a token already emitted *)
 Fixpoint lex_text (skip : nat) (m : lexmode) (s : bstr) : option (list jstoken * lexmode) :=
@@ -202,8 +212,11 @@ Fixpoint lex_text (skip : nat) (m : lexmode) (s : bstr) : option (list jstoken *
       | O =>
           match m with
           | LComment =>
-              if (c =? 10) || (c =? 13) then (if incr_next r then None else lex_text 0 LNormal r)
-              else if ls_at c r then (if incr_next (drop 2 r) then None else lex_text 2 LNormal r)
+              if (c =? 10) || (c =? 13) then
+                (if incr_next r then cons_tok tok_incr_nl (lex_text (incr_skip r) LNormal r) else lex_text 0 LNormal r)
+              else if ls_at c r then
+                (if incr_next (drop 2 r) then cons_tok tok_incr_nl (lex_text (2 + incr_skip (drop 2 r)) LNormal r)
+                 else lex_text 2 LNormal r)
               else lex_text 0 LComment r
           | LStr q =>
               if c =? q then option_map (fun '(ts, m') => (TStr :: ts, m')) (lex_text 0 LNormal r)
@@ -221,7 +234,9 @@ Fixpoint lex_text (skip : nat) (m : lexmode) (s : bstr) : option (list jstoken *
                                end
               else None
           | LNormal =>
-              if is_space c then (if ((c =? 10) || (c =? 13)) && incr_next r then None else lex_text 0 LNormal r)
+              if is_space c then
+                (if ((c =? 10) || (c =? 13)) && incr_next r then cons_tok tok_incr_nl (lex_text (incr_skip r) LNormal r)
+                 else lex_text 0 LNormal r)
               else if (c =? 39) || (c =? 34) then lex_text 0 (LStr c) r
               else if is_ident_start c then
                 let n := span is_ident_part r in
@@ -392,15 +407,18 @@ Definition punct_eqb (a c : punct) : bool :=
   | PBin x, PBin y => bstr_eqb x y
   | _, _ => false
   end.
-Definition tok_eqb (a c : jstoken) : bool :=
+Fixpoint tok_eqb (a c : jstoken) : bool :=
   match a, c with
   | TId x, TId y => bstr_eqb x y
   | TKw k x, TKw k' y => kw_eqb k k' && bstr_eqb x y
   | TNum x, TNum y => bstr_eqb x y
   | TStr, TStr => true
   | TP p, TP q => punct_eqb p q
+  | TNL x, TNL y => tok_eqb x y
   | _, _ => false
   end.
+(* a token with the flag 'line break before': the grammar has no production that allows the tokens the lexers flag *)
+Definition tok_flagged (t : jstoken) : bool := match t with TNL _ => true | _ => false end.
 Definition pat_match (p : pat) (t : jstoken) : bool :=
   match p with
   | PT t' => tok_eqb t' t
@@ -448,6 +466,7 @@ Definition step_want (closable : bool) (stk : list frame) (t : jstoken) : option
   | TP PRPar => if closable then match stk with KCall :: r => Some (cfg (MHave false) r []) | _ => None end else None
   | TP PRBrk => if closable then match stk with KArr :: r => Some (cfg (MHave false) r []) | _ => None end else None
   | TP _ => None
+  | TNL _ => None
   end.
 
 (* after an operand *)
